@@ -157,11 +157,11 @@ class Lane:
             return r
         rc, out = sh("%s/t2/release/ppgcheck scan --cases %d --threads %d" % (self.dir, self.cases, self.threads), cwd=self.dir,
                      env={"VERIF_DIR": self.dir + "/verif"}, timeout=1500)
-        mm = re.search(r'SCAN KILLED after (\d+) scenarios: (\S+) :: (.*)', out)
+        mm = re.search(r'SCAN KILLED after (\d+) scenarios: (.*?) :: ', out, re.S)
         if mm:
             r["status"] = "killed-by-checks"
             r["after"] = int(mm.group(1))
-            r["signature"] = mm.group(2)
+            r["signature"] = mm.group(2).replace("\n", " ")[:160]
         elif "SCAN SURVIVED" in out:
             r["status"] = "SURVIVED"
         elif rc == 124:
